@@ -184,12 +184,24 @@ func run(e *core.Env) {
 			time.Sleep(time.Duration(1+tp.Intn(300)) * time.Millisecond)
 			cn.RunFor(tp, time.Duration(tp.Intn(1500))*time.Millisecond, 5000)
 		}
+		// Some cycles are cut short: the routers are stopped within the first
+		// seconds after start (workers still in their start-up sleeps), under traffic.
+		early := tp.Chance(1, 4)
+		if early {
+			cn.RunFor(tp, time.Duration(tp.Intn(4000))*time.Millisecond, 20000)
+			e.Probe("early_stop_cycle")
+		}
 		// ---- peer: the connect manager retries every second for 10 s while it has
 		// no link at all, and every minute otherwise ----
-		cn.RunFor(tp, 65*time.Second, 40000)
+		if !early {
+			cn.RunFor(tp, 65*time.Second, 40000)
+		}
 		cn.DrainFIFO(tp, 5000)
 		checkAlerts("after start")
 		for _, ed := range edges {
+			if early {
+				break
+			}
 			a, b := running[ed.from], running[ed.to]
 			la := a.in.Peering().GetLink(b.in.Identity().IP)
 			lb := b.in.Peering().GetLink(a.in.Identity().IP)
@@ -201,6 +213,9 @@ func run(e *core.Env) {
 		e.Probe("instances_peered")
 		// ---- run for fake minutes ----
 		mins := tp.Intn(7)
+		if early {
+			mins = -1
+		}
 		faultAt := -1
 		if tp.Chance(1, 3) {
 			faultAt = tp.Intn(mins + 1)
@@ -225,12 +240,48 @@ func run(e *core.Env) {
 			e.Probe("ran_past_announce_interval")
 		}
 		// ---- stop: any order, the others keep running and sending meanwhile ----
-		cn.DrainFIFO(tp, 5000)
+		if !early {
+			cn.DrainFIFO(tp, 5000)
+		}
 		for _, i := range tp.Perm(n) {
 			x := running[i]
 			var ok bool
-			if e.Guard("panic-in-Stop", func() { ok = x.in.Stop() }) {
-				e.Fail("", "")
+			if !early && tp.Chance(1, 2) {
+				if e.Guard("panic-in-Stop", func() { ok = x.in.Stop() }) {
+					e.Fail("", "")
+				}
+			} else {
+				// Stop while the network keeps delivering and the peers keep pinging.
+				done := make(chan struct{})
+				var pan any
+				go func() {
+					defer func() {
+						pan = recover()
+						close(done)
+					}()
+					ok = x.in.Stop()
+				}()
+				finished := false
+				for k := 0; k < 4000 && !finished; k++ {
+					for _, y := range running {
+						if y != x && y.up && tp.Chance(1, 3) {
+							_, _, _ = y.in.Router().PingPong.Send(x.in.Identity().IP, true, 0)
+						}
+					}
+					cn.RunFor(tp, time.Duration(5+tp.Intn(60))*time.Millisecond, 2000)
+					select {
+					case <-done:
+						finished = true
+					default:
+					}
+				}
+				if !finished {
+					e.Fail("stop-does-not-return", "cycle %d: Stop of instance r%d did not return within the simulated minutes while its peers kept pinging", cyc, i)
+				}
+				if pan != nil {
+					e.Fail("panic-in-Stop:unknown", "Stop panicked: %v", pan)
+				}
+				e.Probe("stopped_under_traffic")
 			}
 			x.up = false
 			if !ok {
@@ -262,10 +313,11 @@ func run(e *core.Env) {
 
 func TestCheck(t *testing.T) {
 	core.Main(t, &core.Check{
-		ID:             "C20",
-		QuickRuns:      160,
-		ThoroughRuns:   16000,
-		MinimiseBudget: 60,
-		Run:            run,
+		ID:              "C20",
+		LeakIsViolation: true,
+		QuickRuns:       160,
+		ThoroughRuns:    16000,
+		MinimiseBudget:  60,
+		Run:             run,
 	})
 }
